@@ -457,6 +457,75 @@ def check_compound(case):
 
 
 # ------------------------------------------------------------------------------------------------
+# compound tenors from INTRADAY starts (fixed-length and business-day parts only), and the start written as a date / np.datetime64 / Timestamp
+
+IPARTS = [('h', 3), ('h', -3), ('h', 30), ('n', 90), ('s', -7200), ('b', 1), ('b', -1), ('b', 2), ('d', 1), ('w', -1)]
+ITENORS = [list(p) for k in (2, 3) for p in itertools.product(range(len(IPARTS)), repeat=k)
+           if any(IPARTS[i][0] == 'b' for i in p) and any(IPARTS[i][0] in 'hns' for i in p)]
+ITODS = [datetime.timedelta(hours=22), datetime.timedelta(hours=1, minutes=30), datetime.timedelta(hours=12, microseconds=5)]
+DATE_TENORS = [[('h', 12), ('h', 12)], [('b', 1)], [('d', 2), ('b', -1)], [('h', 5)], [('m', 1), ('b', 1)], [('n', 90), ('b', 2)], [('w', 1)], [('y', 1), ('d', -1)]]
+
+
+def check_compound_intraday(case):
+    import numpy as np
+    import pandas as pd
+    from pyg_base import dt_bump
+    out = Out()
+    rec = _Rec(out)
+    y, m = case['y'], case['m']
+    tm0 = (y - Y0) * 12 + m - 1
+    i0, L = MSTART[tm0], MLEN[tm0]
+    ncall = nsub = 0
+    nt = set()
+    for i in range(i0, i0 + L):
+        for tod in ITODS:
+            t = DAYS[i] + tod
+            for ti, tenor in enumerate(ITENORS):
+                parts = [IPARTS[k] for k in tenor]
+                e = fold(t, parts)
+                nsub += 1
+                if e is None:
+                    continue
+                if fold(t, parts[::-1]) != e:
+                    nt.add(ti)
+                s0 = ''.join(spell(u, n) for u, n in parts)
+                for via, f in (('dt_bump', lambda: dt_bump(t, s0)), ('dt_bump*', lambda: dt_bump(t, *[spell(u, n) for u, n in parts]))):
+                    try:
+                        r = f()
+                    except Exception as ex:
+                        rec('raised', '%s(%r, %r) raised %s: %s; expected %s' % (via, t, s0, type(ex).__name__, ex, e), unit='compound-intraday', via=via)
+                        continue
+                    ncall += 1
+                    if r != e:
+                        rec('compound-wrong', '%s(%r, %r): expected %s (parts left to right, each from the time reached so far) observed %s' % (via, t, s0, e, r),
+                            unit='compound-intraday', via=via, parts=[IPARTS[k][0] for k in tenor])
+        # ---- the start day written as something else than a datetime
+        t = DAYS[i]
+        for parts in DATE_TENORS:
+            e = fold(t, parts)
+            if e is None:
+                continue
+            s0 = ''.join(spell(u, n) for u, n in parts)
+            for sname, ts in (('date', t.date()), ('np.datetime64', np.datetime64(t)), ('Timestamp', pd.Timestamp(t)), ('yyyymmdd', int(t.strftime('%Y%m%d'))), ('iso', t.strftime('%Y-%m-%d'))):
+                nsub += 1
+                try:
+                    r = dt_bump(ts, s0)
+                    ncall += 1
+                except Exception as ex:
+                    rec('raised', 'dt_bump(%r, %r) raised %s: %s; expected %s' % (ts, s0, type(ex).__name__, ex, e), unit='start-spelling', via=sname)
+                    continue
+                if not isinstance(r, datetime.datetime) or r != e:
+                    rec('compound-wrong', 'dt_bump(%r, %r): expected the datetime %s observed %r' % (ts, s0, e, r), unit='start-spelling', via=sname, parts=[u for u, _ in parts])
+    out.call(ncall)
+    out.sub(nsub)
+    out.states += L - 1
+    out.cls('compound-intraday:month-starts-on-%s' % ('weekend' if WD[i0] >= 5 else 'weekday'))
+    for k in sorted(nt):
+        out.nontrivial(k)
+    return out
+
+
+# ------------------------------------------------------------------------------------------------
 
 def quick_years(seed):
     rest = [y for y in range(*CYCLE) if y not in BOUNDARY_YEARS]
@@ -497,6 +566,12 @@ def suites(tier, seed):
               rule='every day of %d..%d x start times 03:04:05.000006 and 23:59:59 x %s x units b,d,w,h,n,s,int,timedeltas (b keeps the time of '
                    'day); %s; all spellings' % (iw[0], iw[-1], ndesc, laws),
               bounds=dict(years=len(iw), n=len(NS[nskey]), tods=len(TODS), units=len(INTRADAY_UNITS))),
+        Suite('compound_intraday', lambda: gen_compound([(2000, 2001)] if tier == 'quick' else [(1999, 2002), (2024, 2025)]), check_compound_intraday,
+              rule='every day of %s x start times 22:00, 01:30, 12:00:00.000005 x all %d two- and three-part tenors over %s holding a business-day part and an h/n/s part '
+                   '(string and one-argument-per-part forms); every day as a midnight start written as date / np.datetime64 / Timestamp / yyyymmdd int / ISO string x %d tenors; '
+                   'non-trivial = tenors for which the order of the parts matters from some start' % (
+                       'the year 2000' if tier == 'quick' else '1999-2001 and 2024', len(ITENORS), [spell(u, n) for u, n in IPARTS], len(DATE_TENORS)),
+              bounds=dict(tenors=len(ITENORS), parts=len(IPARTS), start_times=len(ITODS))),
         Suite('compound', lambda: gen_compound(windows), check_compound,
               rule='every day of the windows %s x all %d two- and three-part concatenations over %s, in four forms (plain string, +/upper-case '
                    'string, one argument per part, dt(t, tenor)); non-trivial = (month, tenor) pairs with a start day from which folding the parts right to left gives another result'
